@@ -762,6 +762,7 @@ func (p *Parser) parseMapExpression() (Node, error) {
 
 	// Parse the map key-value pairs
 	items := make(map[Node]Node)
+	var keys []Node
 
 	// Check if there are any items
 	if p.tokenIndex < len(p.tokens) &&
@@ -789,8 +790,9 @@ func (p *Parser) parseMapExpression() (Node, error) {
 				return nil, err
 			}
 
-			// Add key-value pair to map
+			// Add key-value pair to map, remembering the order of the source
 			items[keyExpr] = valueExpr
+			keys = append(keys, keyExpr)
 
 			// Check for comma separator between items
 			if p.tokenIndex < len(p.tokens) &&
@@ -820,6 +822,7 @@ func (p *Parser) parseMapExpression() (Node, error) {
 			line:     line,
 		},
 		items: items,
+		keys:  keys,
 	}, nil
 }
 
